@@ -77,7 +77,7 @@ def gen(seed):
     nlives = rng.choice([2, 2, 3, 4])
     lives = []
     for li in range(nlives):
-        life = {'dev': rng.choice(['A', 'A', 'A', 'B']),
+        life = {'notify': rng.random() < 0.3, 'dev': rng.choice(['A', 'A', 'A', 'B']),
                 'dirs': rng.choice(['rw', 'rw', 'ro+rw', 'ro', 'none', 'seed-ro']),
                 'crash': None}
         if li < nlives - 1 and rng.random() < 0.6:
@@ -180,6 +180,9 @@ def run_life(ctx, sim, fs, plan, li, life, complete, Crazyflie):
         d = common.compare_log_toc(cf, dev) + common.compare_param_toc(cf, dev)
         if d:
             ctx.violation('2', 'wrong-table-after-cache', 'life %d (%s, dirs %s): %s' % (li, life['dev'], dirs, d[:4]))
+        d = common.lookup_consistency(cf.log.toc, 'log') + common.lookup_consistency(cf.param.toc, 'param')
+        if d:
+            ctx.violation('2', 'lookup-inconsistent-after-cache', 'life %d (%s, dirs %s): %s' % (li, life['dev'], dirs, d[:4]))
         st['connected'] = sim.now
 
     def scenario():
@@ -192,6 +195,13 @@ def run_life(ctx, sim, fs, plan, li, life, complete, Crazyflie):
         st['cf'] = cf
         cf.connected.add_callback(on_connected)
         cf.connection_failed.add_callback(lambda uri, msg: st.__setitem__('failed', msg))
+        if life.get('notify') and dev.v2 and dev.param_toc:
+            # the firmware reports changed parameter values while the connection is being set up
+            def note():
+                if 'connected' not in st and not st.get('gone'):
+                    dev.notify_param(ctx.work.randrange(len(dev.param_toc)))
+                    sim.after(0.003, note)
+            sim.after(0.001, note)
         cf.open_link('sim://cf')
         at = crash['at'] if crash else 'end'
         if isinstance(at, float):
@@ -216,6 +226,7 @@ def run_life(ctx, sim, fs, plan, li, life, complete, Crazyflie):
             P.sim_sleep(0.2)
 
     verdict = sim.run(scenario)
+    st['gone'] = True
     if verdict[0] in ('deadlock', 'timeout', 'livelock'):
         from simkit.harness import hang_signature
         sg, msg = hang_signature(verdict)
